@@ -2,6 +2,14 @@
 PENDING_REASON = "static rules designed in DESIGN.md §3 but the check is not registered yet (under construction)"
 
 CLAIMS = {
+    "C20": {
+        "technique": "static analysis: exception-escape over a frozen table of declared fail-soft call sites (lexical catch-all enclosure or total callee, handler-cannot-raise), handler neutrality w.r.t. canonical streams, handler fall-through and reachability of the final turn record",
+        "text": "Decides, for each declared optional subsystem site (boot snapshot load, GEL merge/split/promotion, reflection compute/write/telemetry, LLM adapter build, hybrid/fusion/MMR/shadow trace in apply_quality, T3 trace, "
+                "cache invalidation and store apply in apply_changes, both sidecar writers, telemetry append): the call is enclosed in its own function by a handler catching Exception whose body cannot raise, or the callee is total; "
+                "those handlers append to no canonical stream and neither return nor raise, and the final turn.jsonl record stays reachable from each of them.",
+        "note": "Not decided: equality of the canonical records with a fault-free / subsystem-off run under injected faults (fault enumeration), and behaviour on garbage snapshot contents beyond exceptions being contained. "
+                "The boot hook's `finally` stores into state and raises for a read-only state view (C10 finding); write_snapshot itself and gel_observe/gel_tick are not declared optional by the statement (information only).",
+    },
     "C19": {
         "technique": "static analysis: guard facts and atom provenance of the reflect call, must-pass of the result reset on every runner path, dominance of the ops-cap return over index.add, def-use shape of the stored summary, effect/attribute whitelist of the id helpers, ordering and no-later-store checks in run_turn, final-stash and fail-soft enclosure checks",
         "text": "Decides: reflect() is reachable only with dry-run off, t3.allow_reflection true and the plan's reflection flag; every runner path (re)sets ctx._reflection_result and run_turn reads it only after this turn's runner call; "
